@@ -164,9 +164,9 @@ def run(tier):
         "rule": "state = attribute token stream: every subset of the 8 optional keys x 4 orders x 4 string-literal styles (plain, "
                 "all-escaped, raw, raw#) x {', ' / ',\\n' + trailing comma}; every permutation of every subset of <= %d optional keys "
                 "with the two paths; every value of every key's domain (valid, case variants, invalid, empty) alone in 4 literal "
-                "styles and in pairs; 5 x 4 surrounding attribute sets x 7 struct visibilities (incl. pub(in path)) x 2 manifest-relative directories. "
+                "styles and in pairs; 5 x 4 surrounding attribute sets x 7 struct visibilities (incl. pub(in path)) x 9 manifest-relative directories; every history of <= %d settings of CARGO_MANIFEST_DIR (two crates, a directory with a blank, unset) in one process, paths checked after each step. "
                 "transition = real option builder vs table, compared through the generator's token stream. non-trivial = distinct "
-                "observed token streams. Conformance = real derive expansions judged by what compiles / warns" % (2 if tier == "quick" else 3),
+                "observed token streams. Conformance = real derive expansions judged by what compiles / warns" % (2 if tier == "quick" else 3, 3 if tier == "quick" else 4),
         "in_crate_arrangements": summary["cases"], "distinct_observations": summary["distinct_observations"],
         "real_derive_cases": len(cases), "exhaustive": True,
         "samples": summary.get("samples", [])[:6] + pick_samples([c["desc"] for c in cases], 4),
